@@ -284,6 +284,10 @@ func (m *AWSKMS) DecryptKey(ctx context.Context, keyBytes []byte) ([]byte, error
 			}
 
 			decryptedKeyBytes, err := m.Crypto.Decrypt(en.EncryptedKey, output.Plaintext)
+
+			// Wipe the plaintext data key now that it has been used
+			internal.MemClr(output.Plaintext)
+
 			if err != nil {
 				log.Debugf("error crypto decrypt: %s\n", err)
 				continue
